@@ -29,6 +29,15 @@ def laws(rng, g, past):
         # operators inside their operand must not leak)
         inner = ("t1", rng.choice(["once", "hist"] if past else ["once", "hist", "ev", "alw"]), g.formula(rng.choice([0, 1])))
         p = inner if rng.random() < 0.4 else ("b", rng.choice(["and", "or"]), inner, g.formula(rng.choice([0, 1])))
+    if not past and rng.random() < 0.15:
+        # operands that read ONE variable directly (no predicate: the operand of the temporal operator is the caller's list),
+        # one of them under a bounded future operator whose window reaches beyond a short trace
+        x = ("v", rng.choice(g.vars[:2]) if hasattr(g, "vars") else "a")
+        a0 = rng.randint(0, 2)
+        w1 = ("tb1", rng.choice(["ev", "alw"]), a0, a0 + rng.randint(2, 6), x)
+        w2 = rng.choice([("t1", rng.choice(["alw", "ev"]), x), x, ("tb1", rng.choice(["ev", "alw"]), 0, rng.randint(1, 6), x)] +
+                        ([("t1", "next", x)] if g.__class__.__name__ == "Gen" else []))       # (no `next` in dense time)
+        p, q = (w1, w2) if rng.random() < 0.5 else (w2, w1)
     a, b = g.bounds()
     c, dd = g.bounds()
     out = []
